@@ -1,6 +1,8 @@
 import Acra.Lemmas.CRCMpeg
 import Acra.Lemmas.MPEGTS
 import Acra.Lemmas.MpegFlip
+import Acra.Lemmas.ReviewC06
+import Acra.Lemmas.ReviewC07
 import Acra.Props.C09.Mpeg
 namespace Acra.Props.C07
 open Acra.Py Acra.Model.MPEGTS Acra.Model.PMT Acra.Model.PES Acra.Lemmas.CRCMpeg
@@ -180,5 +182,66 @@ theorem STANAG_detects_flip_pesdata (t : STANAG) (buf buf' : Bytes) (p p' : PES)
     have := Acra.Lemmas.MpegFlip.beNat_inj _ _ (by simp) e
     simp at this
     exact hne this
+
+/-! ### review additions: the two integrity fields located in the BYTES `pack` emits; witnesses -/
+
+/-- the Spec CRC at the catalogue's check value: CRC-32/MPEG-2 of "123456789" is 0x0376E6E7 -/
+theorem crc32mpeg2_check_value :
+    Spec.MPEG.crc32mpeg2 [0x31, 0x32, 0x33, 0x34, 0x35, 0x36, 0x37, 0x38, 0x39] = 0x0376E6E7 := by decide +kernel
+
+/-- **PMT.crc_std on the emitted bytes**: the buffer `MPEGPacketPMT.pack` returns is `pre ++ sect ++ crc ++ post` with
+    `pre` = TS header, adaptation bytes and pointer field 0 (`PMT_secOff s` bytes), `crc` = CRC-32/MPEG-2 of exactly
+    `sect`, big-endian, `post` = 0xFF stuffing; and `sect` followed by the CRC is a whole section by its own
+    `section_length` field (3 bytes up to and including the field + `section_length` bytes).
+    (`PMT_crc_std` says this of the object's `payload` attribute after `pack`, not of the returned bytes.) -/
+theorem PMT_crc_std_bytes (s : PMT) (h : Acra.Lemmas.PMT.PMT_WF s) :
+    ∃ pre sect post, (PMT.pack s).2 = .ok (pre ++ (sect ++ (beBytes 4 (Spec.MPEG.crc32mpeg2 sect) ++ post))) ∧
+      pre.length = Acra.Lemmas.MpegFlip.PMT_secOff s ∧ pre.getLast? = some 0 ∧
+      ((sect.getD 1 0).toNat * 256 + (sect.getD 2 0).toNat) % 4096 + 3 = sect.length + 4 ∧
+      post = List.replicate (188 - Acra.Lemmas.MPEGTS.Pkt_used (Acra.Lemmas.PMT.PMT_pkt s)) 0xFF :=
+  ⟨_, _, _, Acra.Lemmas.ReviewC07.PMT_pack_bytes s h,
+    by simp [Acra.Lemmas.MpegFlip.PMT_secOff]; omega, by simp,
+    Acra.Lemmas.ReviewC07.PMT_body_section_length s h, rfl⟩
+
+/-- one descriptor, two streams (one with ES descriptors) -/
+def pmtCrcExample : PMT :=
+  { PMT.fresh with
+    pkt := { Pkt.fresh with pid := 0x100, adaption_ctrl := 1 }, tableid := 2, program_number := 1, pcr_pid := 0x101,
+    descriptor_tags := [{ tag := some 5, data := [1, 2, 3] }],
+    streams := [{ streamtype := 0x1B, elementary_pid := 0x101, elementary_stream_descriptors := [] },
+                { streamtype := 0x06, elementary_pid := 0x104, elementary_stream_descriptors := [9, 9] }] }
+
+/-- witness for `PMT_crc_std_bytes` and for the hypothesis of `PMT_crc_std` -/
+example : Acra.Lemmas.PMT.PMT_WF pmtCrcExample ∧
+    (PMT.pack pmtCrcExample).2 = .ok (Acra.Lemmas.MPEGTS.Pkt_bytes (Acra.Lemmas.PMT.PMT_pkt pmtCrcExample)) :=
+  ⟨by decide +kernel, by rw [Acra.Lemmas.PMT.PMT_pack_eq _ (by decide +kernel)]⟩
+
+/-- **STANAG.checksum_std on the emitted bytes**: the buffer `STANAG4609.pack` returns is
+    `pre ++ prot ++ cks ++ post` with `prot` = the 29 bytes universal key, BER length 14, tag 2 / length 8 / 64-bit time,
+    tag 1 / length 2; `cks` = the MISB 0601 sum of exactly `prot`, big-endian; `post` = 0xFF stuffing; `pre` ends 31 bytes
+    before the end of the used part of the packet — offset 157 in an exactly filled packet, the only kind the decoder
+    accepts.  (`STANAG_checksum_std` says this of the object's `pesdata` attribute after `pack`.) -/
+theorem STANAG_checksum_std_bytes (s : STANAG) (h : STANAG_WF s) (hw : Acra.Lemmas.PES.PES_WF (Acra.Lemmas.PES.STANAG_pes s)) :
+    ∃ pre prot post, (STANAG.pack s).2 = .ok (pre ++ (prot ++ (beBytes 2 (Spec.MPEG.misbChecksum prot) ++ post))) ∧
+      prot = Spec.MPEG.uasKey ++ [14, 2, 8] ++ beBytes 8 s.time_us ++ [1, 2] ∧ prot.length = 29 ∧
+      pre.length + 31 = Acra.Lemmas.MPEGTS.Pkt_used (Acra.Lemmas.PES.PES_pkt (Acra.Lemmas.PES.STANAG_pes s)) ∧
+      (Acra.Lemmas.MPEGTS.Pkt_used (Acra.Lemmas.PES.PES_pkt (Acra.Lemmas.PES.STANAG_pes s)) = 188 → pre.length = 157 ∧ post = []) :=
+  ⟨_, _, _, Acra.Lemmas.ReviewC07.STANAG_pack_bytes s h hw, rfl, Acra.Lemmas.ReviewC07.stanagProt_length _,
+    Acra.Lemmas.ReviewC07.STANAG_front_length s,
+    fun hfull => ⟨by have := Acra.Lemmas.ReviewC07.STANAG_front_length s; omega, by simp [hfull]⟩⟩
+
+/-- witness: the packet of the pinned test, exactly filled -/
+def stanagCksExample : STANAG :=
+  { STANAG.fresh with
+    pes := { PES.fresh with
+             pkt := { Pkt.fresh with adaption_ctrl := 3, continuitycounter := 15,
+                                     adaption_field := some { AF.fresh with length := 133 } },
+             streamid := 0xFC, extension_w1 := some 0x81, extension_w2 := some 0x80,
+             header_data := some [0x21, 0x04, 0x03, 0xFE, 0xD1] },
+    stanag_counter := 15, time_us := 1706195279767139 }
+
+example : STANAG_WF stanagCksExample ∧ Acra.Lemmas.PES.PES_WF (Acra.Lemmas.PES.STANAG_pes stanagCksExample) ∧
+    Acra.Lemmas.MPEGTS.Pkt_used (Acra.Lemmas.PES.PES_pkt (Acra.Lemmas.PES.STANAG_pes stanagCksExample)) = 188 := by
+  decide +kernel
 
 end Acra.Props.C07
